@@ -67,7 +67,15 @@ def generate(batch: str, r: Rng, idx: int, tier: str) -> Dict[str, Any]:
     if idx % 7 == 0:       # directed template share: guarantees the important probes
         feat.update({"timers": True, "imr_writes": True, "halt": idx % 14 == 0, "wait": True})
     n = r.child("len").choice([40, 60, 100, 160, 240] if executor == "rs-machine" else [40, 60, 100, 160])
-    return machine.gen_machine_scenario(r, executor, feat, boundaries=n, faulty=faulty)
+    scn = machine.gen_machine_scenario(r, executor, feat, boundaries=n, faulty=faulty)
+    if faulty and r.child("restart").chance(1, 4):
+        # crash/restart at an arbitrary boundary (snapshot -> fresh machine): the interrupt controller's state —
+        # pending requests, handler nesting, the saved frame — must survive it like everything else
+        rr = r.child("restart-at")
+        for _ in range(rr.range(1, 2)):
+            scn["ops"].append([rr.range(1, n - 1), "restart"])
+        scn["ops"].sort(key=lambda o: (o[0], 0 if o[1] == "restart" else 1))
+    return scn
 
 
 def execute(scn: Dict[str, Any]) -> Dict[str, Any]:
